@@ -1,5 +1,5 @@
 """C14 — graceful shutdown (DESIGN.md §5 C14)."""
-import json, os
+import json, os, re
 import srvlib
 from vlib import Infra
 
@@ -59,10 +59,51 @@ def run(ctx):
                               dict(kind="srv-stress", cases=dict(iterations=it, mode=mode, cycles=2)))
             else:
                 raise Infra("stress driver died: " + st["tail"][-800:])
+    # 4. command-line leg: `gnark-mbu start` (verif build) + SIGINT with k requests held at a handler hook; the process's own hook trace
+    #    is validated by TLC against TraceJob.tla
+    cli = ctx.build_cli()
+    ctx.run_vh(["c09"], dict(mode="deletion", depth=2, batch=1, sequences=[], canary="valid"), timeout=1200)      # creates the cached keys file
+    V, U, M = dict(method="POST", body="valid"), dict(method="POST", body="unsat"), dict(method="POST", body="malformed")
+    scen = [dict(k=0, hold="", holdMs=0), dict(k=2, hold="prove.decoded", holdMs=500), dict(k=1, hold="prove.proved", holdMs=400, kinds=[U]), dict(k=2, hold="", holdMs=0, after=True)]
+    if not ctx.quick:
+        for hook in ("prove.enter", "prove.read", "prove.decoded", "prove.proved"):
+            for k in (1, 2, 3):
+                scen.append(dict(k=k, hold=hook, holdMs=300 + 100 * k, kinds=[V, U, M][:k] if hook != "prove.proved" else [V, U, V][:k]))
+        scen.append(dict(k=3, hold="", holdMs=0))
+    sg = ctx.run_vh(["srv-sigint"], dict(cli=cli, mode="deletion", depth=2, batch=1, dir=ctx.scratch, scenarios=scen), timeout=3000)
+    if len(sg) != len(scen):
+        raise Infra("srv-sigint returned %d results for %d scenarios" % (len(sg), len(scen)))
+    files = {"TraceJobRun.tla": "---- MODULE TraceJobRun ----\nEXTENDS TraceJob\nRKS == {%s}\n====\n" % ", ".join(srvlib.RK[k] for k in ("valid", "unsat", "malformed", "get"))}
+    tcfg = ("SPECIFICATION TraceSpec\nCONSTANTS\n Clients = {\"c1\", \"c2\", \"c3\"}\n ReqKinds <- RKS\n WaitForStart = TRUE\n Graceful = TRUE\n SharedParams = FALSE\n Wrapped = TRUE\n AllowStop = TRUE\n"
+            "CONSTRAINT HighWater\nPOSTCONDITION TraceAccepted\nINVARIANTS Drain ListenerReleased Isolation GaugeExact\nCHECK_DEADLOCK FALSE\n")
+    ncli = 0
+    for sc, x in zip(scen, sg):
+        if not x["ok"]:
+            ctx.violation("gnark-mbu start + SIGINT with %d request(s) held at %s: %s" % (sc["k"], sc["hold"] or "no hook", x.get("detail")), dict(kind="srv-sigint", cases=x.get("case")))
+            continue
+        tf = x["observed"]["trace"]
+        r = ctx.tlc("TraceJobRun", tcfg, files=files, workers=1, dfs=True, env_extra={"TRACE_FILE": tf}, label="TraceJob sigint k=%d hold=%s" % (sc["k"], sc["hold"]), allow_violation=True, timeout=600)
+        m = re.search(r'<<"HWM", (\d+), (\d+)>>', r["out"])
+        if not m:
+            raise Infra("TraceJob gave no high-water mark:\n" + "\n".join(r["out"].splitlines()[-30:]))
+        hwm, total = int(m.group(1)), int(m.group(2))
+        if hwm != total + 1:
+            lines = open(tf).read().splitlines()
+            inv = re.search(r"Invariant (\w+) is violated", r["out"])
+            ctx.violation("hook trace of `gnark-mbu start` + SIGINT (k=%d, hold=%s) rejected by TraceJob.tla at line %d of %d (%s): %s" % (
+                sc["k"], sc["hold"], hwm, total, inv.group(1) if inv else "no action of Server.tla explains the event", lines[hwm - 1] if hwm - 1 < len(lines) else "?"),
+                dict(kind="srv-sigint-trace", cases=dict(mode="deletion", depth=2, batch=1, scenarios=[sc]), trace=lines[:hwm]))
+        elif not r["ok"]:
+            raise Infra("TraceJob failed:\n" + "\n".join(r["out"].splitlines()[-30:]))
+        else:
+            ncli += 1
+            ctx.states += r["distinct"]
+            ctx.transitions += r["generated"]
+    ctx.cov["sigint_scenarios_validated"] = ncli
     if beh and diverged * 2 > len(beh) and not ctx.violations:
         raise Infra("%d of %d schedules are infeasible on the real code (hooks and Server.tla disagree) and no property violation was observed: binding broken" % (diverged, len(beh)))
     ctx.traces_validated = len(beh)
-    ctx.evaluations = len(beh) + iters + iters // 4
+    ctx.evaluations = len(beh) + iters + iters // 4 + len(scen)
     ctx.cov["schedules_with_stop_while_requests_in_flight"] = with_inflight
     ctx.cov["schedules_diverged"] = diverged
     ctx.cov["rule"] = ("behaviours of ServerGen.tla (stop timed anywhere relative to both servers' start-up hooks and to 1..2 requests at every handler "
@@ -75,6 +116,16 @@ def replay(ctx, path):
     if case["kind"] == "srv-replay":
         res = ctx.run_vh(["srv-replay"], case["cases"], timeout=3000)
         bad = [x for x in res if any(m["kind"] in C14_KINDS for m in (x.get("observed") or []))]
+    elif case["kind"].startswith("srv-sigint"):
+        ctx.run_vh(["c09"], dict(mode="deletion", depth=2, batch=1, sequences=[], canary="valid"), timeout=1200)
+        c = dict(case["cases"], cli=ctx.build_cli(), dir=ctx.scratch)
+        res = ctx.run_vh(["srv-sigint"], c, timeout=3000)
+        bad = [x for x in res if not x["ok"]]
+        if case["kind"] == "srv-sigint-trace":
+            print("rejected trace prefix:")
+            for l in case["trace"][-6:]:
+                print("  ", l)
+            bad = bad or ["trace rejected in the original run; re-run `bin/check C14` to validate the fresh trace"]
     else:
         st = ctx.run_vh(["srv-stress"], case["cases"], timeout=3000, allow_crash=True)
         bad = [x for x in st["results"] if not x["ok"]]
